@@ -1,5 +1,29 @@
 """Which contract families decide which property, and at what claimed level."""
 PROPS = {
+    'C01': {
+        'families': ['contracts.rebuild', 'contracts.native'],
+        'level': 'proof',
+        'technique': 'contract-based deductive verification of the rebuild plan and column clauses; bounded native stand-in for the schema comparison',
+        'text': 'Deductive: column set/order and copy plan of a rebuilt table (to_sql prefix) and build_column_schema flag contract '
+                '(NULL/NOT NULL, PRIMARY KEY, UNIQUE, REFERENCES, DEFAULT exactly as the field says). Bounded, labelled: evolved '
+                'schema vs freshly created schema on real SQLite over an enumerated scenario space.',
+        'level_note': 'Trusted: pyvc engine/encoding, Django schema editor and SQLite as oracle for indexes/constraints/FK targets '
+                      '(not decidable by contracts over /repo functions: both sides of that comparison are computed by Django and '
+                      'interpreted by SQLite).',
+        'not_decided': ['indexes, unique/check constraints, FK targets and M2M tables as SQLite ends up holding them (bounded native only)'],
+    },
+    'C02': {
+        'families': ['contracts.rebuild', 'contracts.native'],
+        'level': 'proof',
+        'technique': 'contract-based deductive verification of the rebuild plan (copy map / bound parameters), VCs from the real AST, z3/cvc5; bounded native stand-in for row-level clauses',
+        'text': 'Copy-map contract on the prefix of SQLiteAlterTableSQLResult.to_sql: surviving old columns are copied from themselves, '
+                'exactly the columns with a bound parameter carry a placeholder, and the k-th placeholder in SELECT order is bound to the '
+                'initial value declared for that very column (field_initials is the order-preserving restriction of the select list). '
+                'Row-level clauses are additionally run natively on real SQLite (bounded, labelled).',
+        'level_note': 'Trusted: pyvc engine/encoding; quote_name never yields a placeholder text; SQLite executes the statement as its text '
+                      'says; the string assembly of steps 1-5 is outside the cut (syntactic obligation on the INSERT..SELECT shape).',
+        'not_decided': ['renames of M2M tables and model renames: one-line ALTER TABLE RENAME statements (bounded native only)'],
+    },
     'C14': {
         'families': ['contracts.native'],
         'level': 'other',
